@@ -156,6 +156,16 @@ def _merge(repo: Repo, rep: Report) -> None:
             rep.violation("R13.2", f"{M_BUILDER}::CodeBuilder.get_dialect_or_config_option", f"{o} is never read through the namespace chain", "the option would be consulted on one namespace only")
 
 
+def _balanced_args(text: str, start: int) -> str:
+    depth = 1
+    i = start
+    while i < len(text) and depth:
+        depth += text[i] in "([{"
+        depth -= text[i] in ")]}"
+        i += 1
+    return text[start:i - 1].strip()
+
+
 def _cache_names(text: str) -> List[str]:
     return re.findall(r"__dialect_[\w{}.#()<>' ]*?cache[\w{}.#()<>' ]*?__", text)
 
@@ -239,6 +249,18 @@ def _slots(repo: Repo, rep: Report, c) -> None:
                                   "(class, type arguments, format, default dialect) with only the dialect changed", template=call[:300])
                 else:
                     rep.ok("R13.7", f"{label}: miss-path builder carries class, type args, dialect, format, default dialect #{n_paths}", None, nontrivial=False)
+            # R13.10: the cache-hit call and the post-compilation call pass the same arguments
+            hit_args = next((_balanced_args(t, m.end()) for t in texts for m in [re.search(r"\b" + direction + r"\(", t)] if m and t.startswith("return")), None)
+            miss_args = next((_balanced_args(t, m.end()) for t in texts for m in [re.search(r"\[dialect\]\(", t)] if m and t.startswith("return")), None)
+            if hit_args is None or miss_args is None:
+                rep.undecide("R13.10", f"{label}: cannot find the cache-hit / post-compilation calls of the dispatcher")
+            elif hit_args != miss_args:
+                rep.violation("R13.10", f"{M_BUILDER}::CodeBuilder._add_{'pack' if direction == 'packer' else 'unpack'}_method_with_dialect_lines",
+                              f"{label}: cache-hit call passes ({hit_args[:80]}) but the first call passes ({miss_args[:80]})",
+                              "the result of a call with a dialect then depends on whether that dialect was used before (nested values lose "
+                              "the dialect / flags / context on one of the two paths)", generated=full[:1200])
+            else:
+                rep.ok("R13.10", f"{label}: cache-hit and first call pass the same arguments #{n_paths}", None, nontrivial=False)
             if direction == "packer":
                 has_kwargs = bool(next((v for k, v in at.items() if "bool(B.encoder_kwargs)" in k), False))
                 enc = bool(next((v for k, v in at.items() if k == "bool(B.encoder)"), idn.get("B.encoder") not in (None, "None") and "B.encoder" in idn)) or any(t.startswith("return encoder(") for t in texts)
@@ -287,6 +309,7 @@ def _slots(repo: Repo, rep: Report, c) -> None:
             else:
                 rep.violation("R13.6", l.site[0], f"default body `{sk[:80]}` options={with_opts}, builder has options={has_kwargs}", "encoder options dropped")
     rep.floor("R13.6", 2)
+    rep.floor("R13.10", 4)
     # sibling agreement: if the default body can pass encoder options, the dispatcher must be able to as well
     body_opts = any(k[1] for k in seenb)
     disp_opts = False
@@ -387,3 +410,22 @@ LEVEL_TEXT += _ADD8
 _ADD22 = ' Borrowed: R19.3 (flags, dialect included, are forwarded to nested and Self calls).'
 EXPLANATION += _ADD22
 LEVEL_TEXT += _ADD22
+_ADDR5 = ' R13.10: in both dialect dispatchers the cache-hit call and the call made right after compiling pass identical arguments.'
+EXPLANATION += _ADDR5
+LEVEL_TEXT += _ADDR5
+
+
+_run_before_r5 = run
+
+
+def run(repo, rep, tier):  # noqa: F811 -- round-5 shape rules appended to the rules above
+    _run_before_r5(repo, rep, tier)
+    if getattr(rep, "borrowed", False):
+        return
+    from ..core import round5 as _r5
+    _r5.option_defaults(repo, rep, "R13.11")
+
+
+_ADDR5B = " R13.11: every option read through get_dialect_or_config_option defaults to Sentinel.MISSING on BaseConfig and on Dialect (a concrete class-level default would shadow the namespaces consulted later, e.g. a codec's default_dialect)."
+EXPLANATION += _ADDR5B
+LEVEL_TEXT += _ADDR5B
